@@ -348,6 +348,9 @@ class Calls:
             self.frame_ctr += 1
             env['$frame'] = self.frame_ctr
         env.update(self.bind_params(f.node, args, kwargs, st, self_sv=self_sv, module=f.module))
+        for k2, v2 in st.env.items():
+            if k2.startswith('$') and k2 != '$frame' and k2 not in env:
+                env[k2] = v2        # ghost state (attribute stores, call log) is global
         saved = (self.cur_module, self.cur_class, self.spec_mode, st.env)
         self.cur_module = f.module
         if f.cls is not None:
